@@ -30,19 +30,19 @@ int FL(ncmpio_getput, put_varm)(NC *ncp, NC_var *varp, const MPI_Offset *start, 
 __CPROVER_requires(ncp != NULL && WF_NC_BASIC(ncp) && WF_NC_STATS_LOW(ncp) && ncp->my_aggr < 0)           /* instance: no intra-node aggregation */
 __CPROVER_requires(IS_COLL(reqMode) != ((reqMode & NC_REQ_INDEP) != 0))
 __CPROVER_requires(bufcount == NC_COUNT_IGNORE || bufcount >= 1)      /* a flexible request that transfers something has a positive count */
-__CPROVER_requires(g_coll_n == 0 && g_io_n == 0 && g_nwrites == 0 && g_io_failed == 0 && g_type_live == 0 && g_user_swaps == 0 && g_user_buf == buf && g_rw_count == 0)
+__CPROVER_requires(g_coll_n == 0 && g_io_n == 0 && g_nwrites == 0 && g_io_failed == 0 && g_type_live == 0 && g_user_swaps == 0 && g_user_buf == buf)
 __CPROVER_requires(varp == NULL || (varp->ndims == NDIMS && varp->shape != NULL && varp->xsz >= 1 && varp->xsz <= 8 &&
                    start != NULL && count != NULL && start[0] >= 0 && start[0] < ((long long)1 << 40) && count[0] >= 1 && count[0] < 1024 &&
                    (stride == NULL || stride[0] == STRIDE0)))
-__CPROVER_assigns(ncp->numrecs, ncp->put_size, ncp->get_size, ncp->flags, __CPROVER_object_whole(buf), g_user_swaps, g_decoded_nbytes, g_rw_count, GHOST_ASSIGNS)
+__CPROVER_assigns(ncp->numrecs, ncp->put_size, ncp->get_size, ncp->flags, __CPROVER_object_whole(buf), g_user_swaps, g_decoded_nbytes, GHOST_ASSIGNS)
 /* C13 */
 __CPROVER_ensures(g_user_swaps % 2 == 0) /*@C13_user_buffer_swapped_back*/
 /* C05 */
 __CPROVER_ensures(ncp->numrecs >= __CPROVER_old(ncp->numrecs)) /*@C05_numrecs_never_decreases*/
-__CPROVER_ensures(IMPLIES(ISREC(varp) && !IS_COLL(reqMode) && OKRET(__CPROVER_return_value) && g_rw_count > 0,
+__CPROVER_ensures(IMPLIES(ISREC(varp) && !IS_COLL(reqMode) && OKRET(__CPROVER_return_value) && g_io_n >= 1 && g_io_count[0] > 0,
       ncp->numrecs == LLMAX(__CPROVER_old(ncp->numrecs), NEWREC(start, count, stride)))) /*@C05_indep_numrecs_covers_written_records*/
 __CPROVER_ensures(IMPLIES(ISREC(varp) && !IS_COLL(reqMode) && ncp->numrecs > __CPROVER_old(ncp->numrecs), (ncp->flags & NC_NDIRTY) != 0)) /*@C05_indep_growth_marks_dirty*/
-__CPROVER_ensures(IMPLIES(ISREC(varp) && IS_COLL(reqMode) && g_nprocs == 1 && OKRET(__CPROVER_return_value) && g_rw_count > 0,
+__CPROVER_ensures(IMPLIES(ISREC(varp) && IS_COLL(reqMode) && g_nprocs == 1 && OKRET(__CPROVER_return_value) && g_io_n >= 1 && g_io_count[0] > 0,
       ncp->numrecs == LLMAX(__CPROVER_old(ncp->numrecs), NEWREC(start, count, stride)))) /*@C05_coll_single_numrecs_covers_written_records*/
 __CPROVER_ensures(IMPLIES(ISREC(varp) && IS_COLL(reqMode) && g_nprocs > 1 && OKRET(__CPROVER_return_value),
       ncp->numrecs == LLMAX(__CPROVER_old(ncp->numrecs), g_agreed_ll[2]))) /*@C05_coll_numrecs_is_agreed_maximum*/
@@ -69,7 +69,7 @@ void harness(void)
     var.ndims = NDIMS; var.xsz = 4; var.xtype = NC_INT; var.varid = 0; var.shape = shp; var.begin = 1024; var.len = 64;
     shp[0] = IN_isrec ? NC_UNLIMITED : 16; for (int i = 1; i < NDIMS; i++) { shp[i] = 4; st[i] = 0; ct[i] = 1; sd[i] = 1; }
     st[0] = IN_start0; ct[0] = IN_count0; sd[0] = STRIDE0; IN_stride0 = STRIDE0; IN_has_stride = (STRIDE0 != 0);
-    g_user_buf = ubuf; g_user_swaps = 0; g_rw_count = 0;
+    g_user_buf = ubuf; g_user_swaps = 0;
     int r = FL(ncmpio_getput, put_varm)(&nc, IN_zero_req ? NULL : &var, st, ct, IN_has_stride ? sd : NULL, NULL, ubuf,
                                         nondet_ll(), MPI_INT, IN_reqMode);
     CANARY(r == NC_NOERR && IN_isrec && nc.numrecs > IN_numrecs && (IN_reqMode & NC_REQ_COLL), "coll_grew");
